@@ -4,7 +4,8 @@ observation record per step boundary.  Same record layout as rust/harness/src/ma
 scenario = {"prog": {...c12_rom program spec...}, "imr0", "isr0", "f0", "mti", "sti", "steps",
             "events": [[step_index, kind, arg], ...],
             optional: "bp0"/"px0"/"py0" (initial IMEM base pointer / index registers), "imfill" (seed of a
-            pattern written to the user IMEM 00-EB), "kbirq" (keyboard-interrupt enable of the machine)}
+            pattern written to the user IMEM 00-EB), "kbirq" (keyboard-interrupt enable of the machine),
+            "stkwin" (bytes of stack below the initial S that are observed; default c12_rom.STACK_WINDOW)}
 kinds: key_down/key_up/key_inject (arg = key name), on_down, on_up.
 
 Observation: {"pc","s","f","ba","i","x","y","u","imr","isr","pw" (0 running, 1 halted, 2 off), "ic" (instructions
@@ -85,7 +86,7 @@ class PyMachine:
             emu._kb_irq_enabled = bool(sc["kbirq"])
         mem.write_byte(INT + R.ISR, int(sc.get("isr0", 0)) & 0xFF)
         mem.write_byte(INT + R.IMR, int(sc.get("imr0", 0)) & 0xFF)
-        self.lo = R.STACK_TOP - R.STACK_WINDOW
+        self.lo = R.STACK_TOP - R.stack_window(sc)
         self.hi = R.STACK_TOP
         self.dl: List[List[int]] = []
         ext = mem.external_memory
